@@ -134,20 +134,20 @@ static bool judge(report& r, R const& res, expect<T> const& e, bool exact, bool 
     if (res.finite_calls() != e.fin) return bad("finite_calls", "finite_calls() = " + std::to_string(res.finite_calls()) + ", log says " + std::to_string(e.fin));
     L const tol_s = exact ? 0 : 16 * eps * std::sqrt(e.sumsq * std::max<sz>(e.fin, 1));
     L const tol_q = exact ? 0 : 16 * eps * e.sumsq;
-    if (std::fabs(L(res.sum()) - e.sum) > tol_s) return bad("sum", "sum() = " + vf::dec(L(res.sum())) + ", sum of f*w over the log = " + vf::dec(e.sum));
-    if (std::fabs(L(res.sum_of_squares()) - e.sumsq) > tol_q) return bad("sum_of_squares", "sum_of_squares() = " + vf::dec(L(res.sum_of_squares())) + ", log gives " + vf::dec(e.sumsq));
+    if (!(std::fabs(L(res.sum()) - e.sum) <= tol_s)) return bad("sum", "sum() = " + vf::dec(L(res.sum())) + ", sum of f*w over the log = " + vf::dec(e.sum));
+    if (!(std::fabs(L(res.sum_of_squares()) - e.sumsq) <= tol_q)) return bad("sum_of_squares", "sum_of_squares() = " + vf::dec(L(res.sum_of_squares())) + ", log gives " + vf::dec(e.sumsq));
     if (e.calls >= 1)
     {
         L const want = L(res.sum()) / e.calls;
-        if (std::fabs(L(res.value()) - want) > 4 * eps * std::fabs(want)) return bad("value", "value() = " + vf::dec(L(res.value())) + ", sum/N = " + vf::dec(want));
+        if (!(std::fabs(L(res.value()) - want) <= 4 * eps * std::fabs(want))) return bad("value", "value() = " + vf::dec(L(res.value())) + ", sum/N = " + vf::dec(want));
     }
     if (e.calls >= 2)
     {
         L const n = e.calls, ev = L(res.sum()) / n;
         L const want = (L(res.sum_of_squares()) / n - ev * ev) / (n - 1);
         L const tol = 16 * eps * (L(res.sum_of_squares()) / n + ev * ev) / (n - 1);
-        if (std::fabs(L(res.variance()) - want) > tol) return bad("variance", "variance() = " + vf::dec(L(res.variance())) + ", (sumsq/N - E^2)/(N-1) = " + vf::dec(want));
-        if (want > tol && std::fabs(L(res.error()) - std::sqrt(want)) > 16 * eps * std::sqrt(want) + std::sqrt(tol) * 1e-3L)
+        if (!(std::fabs(L(res.variance()) - want) <= tol)) return bad("variance", "variance() = " + vf::dec(L(res.variance())) + ", (sumsq/N - E^2)/(N-1) = " + vf::dec(want));
+        if (want > tol && !(std::fabs(L(res.error()) - std::sqrt(want)) <= 16 * eps * std::sqrt(want) + std::sqrt(tol) * 1e-3L))
             return bad("error", "error() = " + vf::dec(L(res.error())) + ", sqrt(variance) = " + vf::dec(std::sqrt(want)));
     }
     if (with_dist)
@@ -158,8 +158,8 @@ static bool judge(report& r, R const& res, expect<T> const& e, bool exact, bool 
             auto const& br = res.distributions()[0].results()[b];
             // bin width 1/2: sums are divided by the bin area
             if (br.calls() != e.calls) return bad("bin-calls", "bin " + std::to_string(b) + " reports calls " + std::to_string(br.calls()));
-            if (std::fabs(L(br.sum()) - 2 * e.bin_sum[b]) > 2 * tol_s) return bad("bin-sum", "bin " + std::to_string(b) + " sum " + vf::dec(L(br.sum())) + ", log gives " + vf::dec(2 * e.bin_sum[b]));
-            if (std::fabs(L(br.sum_of_squares()) - 4 * e.bin_sumsq[b]) > 4 * tol_q) return bad("bin-sum_of_squares", "bin " + std::to_string(b) + " sumsq " + vf::dec(L(br.sum_of_squares())) + ", log gives " + vf::dec(4 * e.bin_sumsq[b]));
+            if (!(std::fabs(L(br.sum()) - 2 * e.bin_sum[b]) <= 2 * tol_s)) return bad("bin-sum", "bin " + std::to_string(b) + " sum " + vf::dec(L(br.sum())) + ", log gives " + vf::dec(2 * e.bin_sum[b]));
+            if (!(std::fabs(L(br.sum_of_squares()) - 4 * e.bin_sumsq[b]) <= 4 * tol_q)) return bad("bin-sum_of_squares", "bin " + std::to_string(b) + " sumsq " + vf::dec(L(br.sum_of_squares())) + ", log gives " + vf::dec(4 * e.bin_sumsq[b]));
         }
     }
     else if (!res.distributions().empty()) return bad("distribution-shape", "distributions without parameters");
@@ -183,7 +183,7 @@ static bool judge_vegas_adj(report& r, hep::vegas_result<T> const& res, std::vec
     for (sz i = 0; i != want.size(); ++i)
     {
         L const tol = exact ? 0 : 16 * std::numeric_limits<T>::epsilon() * mag[i];
-        if (std::fabs(L(res.adjustment_data()[i]) - want[i]) > tol)
+        if (!(std::fabs(L(res.adjustment_data()[i]) - want[i]) <= tol))
         {
             r.violate("vegas-adjustment-data", id, what + ": adjustment datum [dim " + std::to_string(i / bins) + ", bin " + std::to_string(i % bins) + "] = "
                 + vf::dec(L(res.adjustment_data()[i])) + ", sum of (f*w)^2 over that bin in the log = " + vf::dec(want[i]));
@@ -209,7 +209,7 @@ static bool judge_mc_adj(report& r, hep::multi_channel_result<T> const& res, std
     if (res.adjustment_data().size() != channels) { r.violate("mc-adjustment-size", id, what); return false; }
     for (sz j = 0; j != channels; ++j)
     {
-        if (std::fabs(L(res.adjustment_data()[j]) - want[j]) > 32 * std::numeric_limits<T>::epsilon() * std::fabs(want[j]))
+        if (!(std::fabs(L(res.adjustment_data()[j]) - want[j]) <= 32 * std::numeric_limits<T>::epsilon() * std::fabs(want[j])))
         {
             r.violate("mc-adjustment-data", id, what + ": adjustment datum of channel " + std::to_string(j) + " = " + vf::dec(L(res.adjustment_data()[j]))
                 + ", sum of p_j (f*w)^2 w over the log = " + vf::dec(want[j]));
@@ -272,7 +272,8 @@ static void one_iteration(report& r, config const& c, std::vector<T> const& valu
         map.dims = c.dims;
         std::vector<T> w;
         if (c.variant == 0) { map.split = {T(0.25), T(0.75)}; w = {T(0.25), T(0.75)}; }
-        else { map.split = {T(0.25), T(0.5), T(0.75)}; w = {T(0.5), T(0), T(0.5)}; map.jac = 1; }
+        else if (c.variant == 1) { map.split = {T(0.25), T(0.5), T(0.75)}; w = {T(0.5), T(0), T(0.5)}; map.jac = 1; }
+        else { map.split = {T(0.25), T(0.75)}; w = {T(0.25), T(0.75)}; map.cut_lo = T(0.0625); map.cut_hi = T(0.5); }   // a region where all densities vanish
         s.map = &map;
         auto const res = c.dist
             ? hep::multi_channel_iteration(hep::make_multi_channel_integrand<T>(fn<T>(), c.dims, map, c.dims, w.size(), dparams), n, w, gen)
@@ -294,7 +295,7 @@ static void sequences(report& r, sz max_n)
     {
         for (sz d : {sz(1), sz(2)}) cfgs.push_back({0, d, 0, dist});
         for (sz d : {sz(1), sz(2)}) for (int v : {0, 1}) cfgs.push_back({1, d, v, dist});
-        for (int v : {0, 1}) cfgs.push_back({2, sz(1), v, dist});
+        for (int v : {0, 1, 2}) cfgs.push_back({2, sz(1), v, dist});
         cfgs.push_back({2, sz(2), 0, dist});
     }
     std::string const tn = vf::type_name<T>();
